@@ -288,7 +288,7 @@ def main():
     R = pairs.run_many(pj)
     P = [pairs.project_pair(R[a], R[b], kind=kind, exact=True) for a, b, kind in meta]
     for rr in R:
-        if rr["raised"]:
+        if rr["raised"] and not pairs.out_of_scope(rr):
             ck.violation("pair:raised", f"run raised {rr['raised']}", {"job": rr["job"]})
     pf, pst = pairs.validate_pairs(P)
     seen = set()
